@@ -92,11 +92,14 @@ func (s *Scanner) Scan(ctx context.Context, r *scan.Request) (result scan.Result
 	host := fmt.Sprintf("tcp://%s:%d", r.DstIP.String(), r.DstPort)
 
 	var docker *moby.Client
+	// WithHost reconfigures the transport of the client's current HTTP client (proxy from
+	// HTTP_PROXY/ALL_PROXY, dialer), so it has to come before WithHTTPClient: the shared
+	// transport is used by all workers concurrently and probes must go to the target itself
 	if docker, err = moby.NewClientWithOpts(
 		moby.WithAPIVersionNegotiation(),
+		moby.WithHost(host),
 		moby.WithHTTPClient(s.client),
 		moby.WithScheme(s.proto),
-		moby.WithHost(host),
 	); err != nil {
 		return
 	}
